@@ -3,7 +3,7 @@ import ScrapliModel.Close.Model
 The hand-written invariant `Sys.inv` of the shutdown skeleton is inductive, and it implies the
 per-state obligations of C07. Proofs are symbolic (case split on the program counter of the process
 that moves, then `simp`), so their cost does not depend on the size of the state space
-(138 560 reachable states).
+(139 484 reachable states).
 -/
 namespace Scrapli.Close.Sys
 open Scrapli.Close
@@ -224,21 +224,21 @@ theorem rank_stepK (s s' : St) (h : inv s = true) (hd : s.doneClosed = true) (hs
     rank s' < rank s := by
   obtain ⟨nc, mode, twice, r, k, second, o, oSecond, n, w, feed, left, closedFlag, doneClosed, exited,
     rlDone, ncDoneClosed, closeCalls, panic⟩ := s
-  cases k <;> simp [stepK, inv, wf, implClosed, kPastEntry, kPastSignal, kPastNcDone] at h hs hd ⊢
+  cases k <;> simp [stepK, inv, wf, kPastEntry, kPastSignal, kPastNcDone] at h hs hd ⊢
   all_goals close_rank
 
 theorem rank_stepO (s s' : St) (h : inv s = true) (hd : s.doneClosed = true) (hs : s' ∈ stepO s) :
     rank s' < rank s := by
   obtain ⟨nc, mode, twice, r, k, second, o, oSecond, n, w, feed, left, closedFlag, doneClosed, exited,
     rlDone, ncDoneClosed, closeCalls, panic⟩ := s
-  cases o <;> simp [stepO, inv, wf, implClosed] at h hs hd ⊢
+  cases o <;> simp [stepO, inv, wf] at h hs hd ⊢
   all_goals close_rank
 
 theorem rank_stepN (s s' : St) (h : inv s = true) (hd : s.doneClosed = true) (hs : s' ∈ stepN s) :
     rank s' < rank s := by
   obtain ⟨nc, mode, twice, r, k, second, o, oSecond, n, w, feed, left, closedFlag, doneClosed, exited,
     rlDone, ncDoneClosed, closeCalls, panic⟩ := s
-  cases n <;> simp [stepN, inv, wf, implClosed] at h hs hd ⊢
+  cases n <;> simp [stepN, inv, wf] at h hs hd ⊢
   all_goals close_rank
 
 theorem rank_stepW (s s' : St) (h : inv s = true) (hd : s.doneClosed = true) (hs : s' ∈ stepW s) :
